@@ -77,6 +77,13 @@ func (h *dbHarness) execRatchet(op *DBOp) {
 	err := h.db.RatchetFormatMajorVersion(pebble.FormatMajorVersion(target))
 	if err != nil {
 		h.opErr("ratchet", err)
+		// A ratchet that failed part-way may have completed some steps. What the
+		// DB reports afterwards is what it will act on (a retry starts from it),
+		// so it must be durable like the result of a successful ratchet.
+		if v := int(h.db.FormatMajorVersion()); v > cur {
+			h.fmvFloors = append(h.fmvFloors, fmvFloor{idx: h.disk.LogLen(), v: v})
+			h.count("probe.ratchet_failed_partway", 1)
+		}
 		return
 	}
 	after := h.db.FormatMajorVersion()
